@@ -1787,17 +1787,17 @@ func specWrapped(x LogWriter, w io.Writer) bool {
 }
 
 //@ func (*dualWriter).Get
-//@   props C03
+//@   props C02 C03
 //@   requires s != nil
-//@   ensures [C03.route-off] implies(lvl == OffLevel, w == discardWriter)
-//@   ensures [C03.route-level] implies(lvl != OffLevel && s.leveled != nil && has(s.leveled, lvl) && len(s.leveled[lvl]) > 0, w == s.leveled[lvl])
-//@   ensures [C03.route-error] implies(lvl != OffLevel && !(s.leveled != nil && has(s.leveled, lvl) && len(s.leveled[lvl]) > 0) && has(mLevelUseErrorDevice, lvl), w == s.Error)
-//@   ensures [C03.route-normal] implies(lvl != OffLevel && !(s.leveled != nil && has(s.leveled, lvl) && len(s.leveled[lvl]) > 0) && !has(mLevelUseErrorDevice, lvl), w == s.Normal)
+//@   ensures [C02.C03.route-off] implies(lvl == OffLevel, w == discardWriter)
+//@   ensures [C02.C03.route-level] implies(lvl != OffLevel && s.leveled != nil && has(s.leveled, lvl) && len(s.leveled[lvl]) > 0, w == s.leveled[lvl])
+//@   ensures [C02.C03.route-error] implies(lvl != OffLevel && !(s.leveled != nil && has(s.leveled, lvl) && len(s.leveled[lvl]) > 0) && has(mLevelUseErrorDevice, lvl), w == s.Error)
+//@   ensures [C02.C03.route-normal] implies(lvl != OffLevel && !(s.leveled != nil && has(s.leveled, lvl) && len(s.leveled[lvl]) > 0) && !has(mLevelUseErrorDevice, lvl), w == s.Normal)
 
 //@ func (*Entry).findWriter
-//@   props C03
+//@   props C02 C03
 //@   requires s != nil && defaultWriter != nil
-//@   ensures [C03.route] typeis(lw, LWs) && dyn(lw, LWs) == specDest(s, lvl)
+//@   ensures [C02.C03.route] typeis(lw, LWs) && dyn(lw, LWs) == specDest(s, lvl)
 
 //@ func (*dualWriter).SetWriter
 //@   props C03
